@@ -148,8 +148,15 @@ def pmap(fn, items, nproc=None):
     if nproc == 1:
         res = [_call((fn, it)) for it in items]
     else:
-        with mp.get_context("fork").Pool(nproc) as pool:
-            res = pool.map(_call, [(fn, it) for it in items], chunksize=1)
+        # ProcessPoolExecutor, not multiprocessing.Pool: when a worker process dies (the kernel's OOM killer on a loaded
+        # machine) Pool.map waits forever; the executor raises BrokenProcessPool and the check ends as a machinery failure
+        from concurrent.futures import ProcessPoolExecutor
+        from concurrent.futures.process import BrokenProcessPool
+        try:
+            with ProcessPoolExecutor(max_workers=nproc, mp_context=mp.get_context("fork")) as pool:
+                res = list(pool.map(_call, [(fn, it) for it in items], chunksize=1))
+        except BrokenProcessPool as exc:
+            raise tlc.MachineryError("a replay worker process died (killed by the system?): %s" % exc)
     out = []
     for kind, r in res:
         if kind == "err":
